@@ -72,7 +72,31 @@ func c10BinaryCase(id, k int, rng *gen.Rand, cfg c10Config) *c10Case {
 	if unit == 8 {
 		conv = "tobytes"
 	}
-	prog := fmt.Sprintf("%q | from_hex | %s | .[%d:%d]", hex.EncodeToString(data), conv, a, b)
+	src := fmt.Sprintf("%q | from_hex", hex.EncodeToString(data))
+	if len(data) >= 3 && rng.Chance(1, 3) {
+		// the same bytes built from several parts (a multi reader: the hex/ascii writers then receive the value
+		// in several writes; the first part often ends exactly at a row end)
+		nparts := 2 + rng.Intn(4)
+		cuts := []int{0}
+		first := 1 + rng.Intn(len(data)-1)
+		if lb := cfg.lineBytes; lb > 0 && len(data) > lb && rng.Bool() {
+			first = lb * (1 + rng.Intn(len(data)/lb))
+			if first >= len(data) {
+				first = lb
+			}
+		}
+		cuts = append(cuts, first)
+		for i := 2; i < nparts && cuts[len(cuts)-1] < len(data)-1; i++ {
+			cuts = append(cuts, cuts[len(cuts)-1]+1+rng.Intn(len(data)-cuts[len(cuts)-1]-1))
+		}
+		cuts = append(cuts, len(data))
+		var parts []string
+		for i := 0; i+1 < len(cuts); i++ {
+			parts = append(parts, fmt.Sprintf("(%q | from_hex)", hex.EncodeToString(data[cuts[i]:cuts[i+1]])))
+		}
+		src = "[" + strings.Join(parts, ", ") + "] | tobytes"
+	}
+	prog := fmt.Sprintf("%s | %s | .[%d:%d]", src, conv, a, b)
 	node := &c10Node{start: a * unit, length: (b - a) * unit}
 	root := &c10Root{bits: int64(len(data)) * 8, data: data, top: true}
 	if unit == 1 && len(data) > 0 && rng.Chance(1, 3) {
